@@ -188,13 +188,13 @@ def l2_records(pa, insts, backends, modes, rng, violations, limit=None):
 LABELS = ["x", "y", "zz", "10", "9", "2"]
 
 
-def random_continuum(pa, rng, n_ann, max_units, unlabelled=0.0, grid=True, allow_empty=True):
+def random_continuum(pa, rng, n_ann, max_units, unlabelled=0.0, grid=True, allow_empty=True, full=False):
     from pyannote.core import Segment
     c = pa.Continuum()
     for a in range(n_ann):
         name = f"an{a}"
         c.add_annotator(name)
-        k = rng.randint(0 if allow_empty else 1, max_units)
+        k = max_units if full else rng.randint(0 if allow_empty else 1, max_units)
         for _ in range(k):
             if grid:
                 s = rng.randint(0, 20)
@@ -256,17 +256,19 @@ SHAPES_SEARCH = [(2, 5), (2, 6), (3, 3), (3, 4), (4, 2), (4, 3), (5, 2)]
 
 
 def l3_records(pa, rng, count, backends, modes, violations, shapes=SHAPES_SEARCH, unlabelled=0.25, search=True,
-               cands=True, recompute=True):
+               cands=True, recompute=True, dense=False):
     recs = []
     tries = 0
     while len(recs) < count and tries < count * 4:
         tries += 1
         n_ann, mu = rng.choice(shapes)
         unl = rng.choice([0.0, 0.0, unlabelled, 1.0])
-        c = random_continuum(pa, rng, n_ann, mu, unlabelled=unl, grid=rng.random() < 0.6)
+        c = random_continuum(pa, rng, n_ann, mu, unlabelled=unl, grid=rng.random() < 0.6, allow_empty=not dense, full=dense)
         if not c:
             continue
         kind, d = random_dissim(pa, rng, c)
+        if dense:       # heavily overlapping medium continua, positional weight 3: many near-optimal alignments (hard for a MIP gap)
+            kind, d = "comb_abs", pa.CombinedCategoricalDissimilarity(alpha=3, beta=rng.choice([1, 2]), delta_empty=rng.choice([1.0, 1.0, 0.5]))
         try:
             D, de_int = ar.observe_table(pa, c, d, R_SCALE)
         except Exception as ex0:
@@ -407,8 +409,10 @@ def run_property(pid, tier, rep):
         recs = l2_records(pa, insts, both, ["partition", "soft"], rng, violations, limit=150 if quick else None)
         recs += l3_records(pa, rng, 200 if quick else 3000, both, ["partition", "soft"], violations, cands=False, recompute=False)
         # medium continua (beyond the optimality search): the two back-ends must still agree with each other
-        recs += l3_records(pa, rng, 120 if quick else 1500, both, ["partition", "soft"], violations, cands=False, recompute=False,
+        recs += l3_records(pa, rng, 80 if quick else 1000, both, ["partition", "soft"], violations, cands=False, recompute=False,
                            search=False, shapes=[(3, 7), (4, 5), (2, 15), (5, 4), (3, 9)], unlabelled=0.0)
+        recs += l3_records(pa, rng, 500 if quick else 5000, both, ["partition"], violations, cands=False, recompute=False,
+                           search=False, shapes=[(3, 7), (3, 8), (4, 5), (3, 6)], unlabelled=0.0, dense=True)
         recs = add_other_backend_cost(recs)
     elif pid == "C11":
         l1_align_mutants(rep)
